@@ -128,8 +128,11 @@ class _ViolationFound(Exception):
 
 def load_known() -> dict[tuple[str, str], dict[str, Any]]:
     out: dict[tuple[str, str], dict[str, Any]] = {}
-    if KNOWN_FILE.exists():
-        for line in KNOWN_FILE.read_text().splitlines():
+    files = [KNOWN_FILE] + sorted((ROOT / "known_findings.d").glob("*.jsonl"))
+    for f in files:
+        if not f.exists():
+            continue
+        for line in f.read_text().splitlines():
             line = line.strip()
             if not line or line.startswith("#"):
                 continue
